@@ -167,3 +167,62 @@ func VerifHarness_C12_arbitrary_schedule() {
 	vCover(vAnd(completedBy == 1, fires == 6), "C12.cover_response_after_the_last_retransmission")
 	vReach("end")
 }
+
+// Scripted interleaving: the response arrives while the caller is still inside the FIRST socket write of its
+// transaction (a fast server, a slow send path). The response must find the transaction and complete it: the
+// caller is released with that response once its write returns, without a retransmission. Optionally the client is
+// closed while the response is being handed over: nobody crashes, nobody stays blocked.
+//
+//verif:props=C12,C18 replay=model bounds="one transaction whose first transmission is held inside conn.WriteTo when the matching response (success or error class) arrives on the read-loop goroutine; optionally Client.Close from a third goroutine before the write returns"
+func VerifHarness_C18_response_during_the_first_write() {
+	conn := &allocation.VPacketConn{Name: "client", WGate: make(chan struct{})}
+	c := vNewClient(conn, 200*time.Millisecond)
+	msg := vRequestMsg()
+	to := allocation.VUDPAddr4()
+	var res client.TransactionResult
+	var err error
+	done := 0
+	go func() {
+		res, err = c.PerformTransaction(msg, to, false)
+		done++
+	}()
+	vRunSpawn(0)
+	vAssert(done == 0, "C18.cover_caller_is_inside_the_first_write")
+	class := stun.ClassSuccessResponse
+	if vBool() {
+		class = stun.ClassErrorResponse
+	}
+	raw := vResponseFor(msg.TransactionID, class)
+	inboundDone := false
+	go func() {
+		_, _ = c.HandleInbound(raw, to)
+		inboundDone = true
+	}()
+	vRunSpawn(1)
+	closeNow := vBool()
+	closed := false
+	if closeNow {
+		go func() {
+			c.Close()
+			closed = true
+		}()
+		vRunSpawn(2)
+	}
+	conn.WGate <- struct{}{}
+	conn.WGate = nil
+	vYield()
+	vAssert(done == 1, "C12.response_during_the_first_write_completes_the_transaction")
+	vAssert(done == 1, "C18.caller_is_released")
+	vAssert(inboundDone, "C18.response_path_finishes")
+	if closeNow {
+		vAssert(closed, "C18.close_finishes")
+	} else if done == 1 {
+		vAssert(err == nil, "C12.first_matching_response_completes_the_transaction")
+		vAssert(res.Msg != nil && res.Msg.TransactionID == msg.TransactionID, "C12.result_is_the_response_with_the_requests_id")
+		vAssert(len(conn.Writes) == 1, "C12.answered_request_is_not_retransmitted")
+	}
+	vAssert(c.trMap.Size() == 0, "C12.nothing_left_in_the_transaction_table")
+	vAssert(vBlockedThreads() == 0, "C18.nobody_left_blocked")
+	vAssert(vLocksHeld() == 0, "C18.no_lock_left_held")
+	vReach("end")
+}
